@@ -390,6 +390,41 @@ def bounded_soundness(ctx):
     for f in fails:
         ctx.bounded_failure(f"C01.sound.{f['logic']}", f"valid verdict with a truth-table countermodel: {f}", f, instance=f['argument'])
 
+QUANT_FAMILY = ['VxFx', 'SxFx', 'NVxFx', 'NSxFx', 'VxNFx', 'SxNFx', 'NVxNFx', 'NSxNFx', 'VxNNFx', 'NVxNNFx', 'SxNNFx', 'Fm', 'NFm', 'NNFm']
+
+def _quant_chunk(job):
+    L, pairs = job
+    from pytableaux.lang import Argument
+    from bounded import prover as P
+    from spec import evaluate as E
+    logic = RS.registry()(L); sem = S.spec_of(L)
+    n = 0; out = []
+    for prem, concl in pairs:
+        astr = f'{concl}:{prem}'
+        arg = Argument(astr)
+        o = P.outcome(logic, arg)[0]
+        n += 1
+        if o != 'valid': continue
+        d = E.small_countermodel(sem, arg.premises, arg.conclusion, max_worlds=1, max_domain=2, budget=20_000)
+        if d is not None: out.append(dict(logic=L, argument=astr, countermodel=str(getattr(d, 'summary', lambda: d)())[:200]))
+    return n, out
+
+def bounded_quantified_soundness(ctx):
+    """one-premise arguments over quantified, negated-quantified and doubly negated forms of one predication (the quantifier rules meet
+    bodies that are themselves negations): a valid verdict is checked against an independent search over models with <= 3 elements"""
+    names = [RS.registry()(n).Meta.name for n in RS.registry() if RS.registry()(n).Meta.quantified]
+    pairs = [(p, c) for p in QUANT_FAMILY for c in QUANT_FAMILY if p != c]
+    total = 0; fails = []
+    for n, out in pmap(_quant_chunk, [(L, pairs) for L in names]):
+        total += n; fails += out
+    ctx.bounded_part(evaluations=total, distinct_nontrivial=len(pairs) * len(names), rule='every ordered pair of distinct members of {∀xFx, ∃xFx, their negations, the same over ¬Fx and ¬¬Fx, Fm, ¬Fm, ¬¬Fm} as premise / conclusion in every quantified logic; a valid verdict is compared with an independent search for a countermodel with at most 3 elements (1 world)',
+                     bound=f'{len(pairs)} arguments x {len(names)} logics', samples=[dict(logic='G3', argument='SxFx:NVxNFx')] + fails[:3], label='quantified valid-vs-small-models')
+    seen = set()
+    for f in fails:
+        if f['logic'] in seen: continue
+        seen.add(f['logic'])
+        ctx.bounded_failure(f"C01.sound.quantified.{f['logic']}", f"valid verdict with a small countermodel: {f}", f, instance=f['argument'])
+
 def run(ctx):
     ctx.level = 'other'
     ctx.drop('type annotations', 'docstrings')
@@ -426,6 +461,7 @@ def run(ctx):
     index_ob.index_obligations(ctx, 'C01.index')
     index_ob.register_replayers(ctx, 'C01.index')
     bounded_soundness(ctx)
+    bounded_quantified_soundness(ctx)
     from checks import c04
     ctx.replayers['C01.rule.'] = lambda r: c04.replay(dict(obligation=r.name, counterexample=r.cex, meta=r.meta))
     ctx.replayers['C01.identity.'] = replay_identity
